@@ -1394,6 +1394,17 @@ def shrink(case):
 
 def _shrink(case):
     pat, A, B = case["pat"], case["A"], case["B"]
+    if case.get("alias"):
+        return                      # positions are fixed by the sharing
+    if case.get("second"):
+        # first try the second flow alone on a fresh element, then without it, then with an empty first flow
+        sec = case["second"]
+        plain = {k: v for k, v in case.items() if k != "second"}
+        yield dict(plain, A=sec["A"], B=sec["B"], pat=sec["pat"])
+        yield plain
+        if pat:
+            yield dict(case, A=[], B=[], pat=[])
+        return
     # drop one value (and its pattern entry)
     for which, lst in ((True, A), (False, B)):
         for j in range(len(lst)):
@@ -1594,6 +1605,27 @@ def _configs(tier):
     out.append(({"k": "render", "def": "t2.tex", "templates": ["t1.tex", "t2.tex"], "sel": None, "verbose": True}, {},
                 a_render, b_render))
 
+    Rbase = {"k": "render", "def": "t1.tex", "templates": ["t1.tex", "t2.tex"], "sel": None}
+    for st in ("t2", "bycls", "missing", "raise"):           # select_template given as a callable
+        out.append((dict(Rbase, seltemplate=st), {}, a_render, b_render))
+
+    def a_render_data(ids, rng):                             # from_data=True: the data part is rendered
+        n = ids.next
+        csv = lambda **kw: {"output": dict({"filetype": "csv"}, **kw)}
+        return [
+            {"d": {"k": "baredict", "v": {"a": n(), "output": {"filetype": "x"}}}, "c": csv()},
+            {"d": {"k": "seq", "tuple": False, "items": []}, "c": csv(template="t2.tex")},
+            {"d": {"k": "str", "v": ""}, "c": csv()},
+            {"_e": 1, "d": {"k": "str", "v": "text %d" % n()}, "c": csv()},                            # ValueError
+            {"_e": 1, "d": {"k": "int", "v": 1000 + n()}, "c": csv()},                                 # TypeError
+            {"_e": 1, "d": {"k": "seq", "tuple": True, "items": [{"k": "int", "v": 1}, {"k": "int", "v": 2}]},
+             "c": csv()},                                                                              # TypeError
+            {"_e": 1, "d": _hist(ids, 1, "num"), "c": csv()},                                          # TypeError
+            {"_e": 1, "d": {"k": "baredict", "v": {"a": 1}}, "c": csv(template="missing.tex")},        # TemplateNotFound
+        ]
+    out.append((dict(Rbase, fromdata=True), {}, a_render_data, b_render))
+    out.append((dict(Rbase, fromdata=True, seltemplate="t2"), {}, a_render_data, b_render))
+
     def a_render_int(ids, rng):
         n = ids.next
         return [{"d": {"k": "int", "v": 1000 + n()}}, {"d": {"k": "int", "v": 1000 + n()}, "c": {"a": n()}},
@@ -1677,6 +1709,10 @@ def _configs(tier):
             {"d": {"k": "rows", "id": n(), "rk": "ok", "upd": True}},
         ]
     out.append(({"k": "h2g"}, {}, a_h2g, b_h2g))
+    for extra in ({"coord": "right"}, {"coord": "middle", "scalenum": 5}, {"scale": True}, {"mv": "first"},
+                  {"mv": "witherr", "nfields": 3}, {"nfields": 3}, {"nfields": 1, "scale": True},
+                  {"mv": "first", "nfields": 3, "coord": "right"}):
+        out.append((dict({"k": "h2g"}, **extra), {}, a_h2g, b_h2g))
 
     # ---- IterateBins / MapBins
     def hists(kinds, rng_ctx=True):
@@ -1785,6 +1821,42 @@ def _configs(tier):
     for inner in ("id", "dup", "drop", "number", "count", "raise", "yieldraise", "last", "dupeven"):
         out.append(({"k": "mapgroup", "inner": inner}, {}, a_group, b_group))
 
+    # groups made by the real lena.flow.group_plots (GroupBy -> group_plots -> MapGroup is the documented chain)
+    def a_gplots(ids, rng):
+        n = ids.next
+        i = lambda: {"k": "int", "v": 3000 + n()}
+        m = lambda c=None: {"d": i(), "c": c}
+        return [
+            {"d": {"k": "gplots", "members": [m({"x": 1, "y": {"z": n()}}), m({"x": 1, "y": {"z": 0}})]}},
+            {"d": {"k": "gplots", "members": [m({"output": {"changed": True}, "x": 1}), m({"x": 1})]}},
+            {"d": {"k": "gplots", "members": [m({"output": {"changed": False}}), m(), m({"output": {"changed": 0}})]}},
+            {"d": {"k": "gplots", "members": [m({"g": n()})]}},
+            {"d": {"k": "gplots", "members": [{"d": _hist(ids, 1, "num"), "c": {"x": 1}}, m({"x": 1})]}},
+        ]
+    for inner in ("id", "dup", "number", "dupeven", "count"):
+        out.append(({"k": "mapgroup", "inner": inner}, {}, a_gplots, b_group))
+
+    # ---- GroupPlots (deprecated, but in the anchored file): passes what it does not select, yields the groups
+    #      after the flow; an element object that is used again keeps its groups
+    def gp_vals(ids, rng):
+        n = ids.next
+        return extra_runif(ids, rng) + [
+            {"d": {"k": "int", "v": 2000 + n()}, "c": {"n": n(), "output": {"changed": True}}},
+            {"d": {"k": "int", "v": 2000 + n()}, "c": {"n": "same", "output": {"changed": False}}},
+            {"d": {"k": "int", "v": 2000 + n()}, "c": {"n": "same", "x": {"y": 1}}},
+            {"d": {"k": "str", "v": "g%d" % n()}, "c": {"n": n()}},
+        ]
+    for sel, key, ys in (({"cls": "int"}, "parity", False), ({"cls": "int"}, "parity", True),
+                         ({"cls": "int"}, "ctxn", False), ({"key": "n"}, "ctxn", True),
+                         ({"or": [{"cls": "int"}, {"cls": "str"}]}, "cls", True), (None, "cls", False),
+                         ({"cls": "histogram"}, "const", True), ({"key": "k"}, "parity", False)):
+        gel = {"k": "groupplots", "sel": sel, "key": key, "ys": ys}
+        out.append((gel, {},
+                    (lambda g: lambda ids, rng: [v for v in common_b(ids, rng) + gp_vals(ids, rng)
+                                                 if ref_selected(g, v)])(gel),
+                    (lambda g: lambda ids, rng: [v for v in common_b(ids, rng) + gp_vals(ids, rng)
+                                                 if not ref_selected(g, v)])(gel)))
+
     # ---- real converter processes (oracle only): `cp` for pdflatex, a PATH stub for pdftoppm
     out.append(({"k": "pdf", "ow": False, "sched": None, "real": True}, pfs, a_pdf, b_pdf))
     out.append(({"k": "png", "format": "png", "ow": False, "real": True}, gfs, a_png, b_png))
@@ -1818,6 +1890,7 @@ def _configs(tier):
         ([{"k": "runif", "sel": {"cls": "histogram"}, "inner": "id"}, {"k": "h2g"}, {"k": "tocsv"}],
          [extra_runif, a_h2g, b_h2g]),
     ]
+    pipes.append(([], [a_tocsv]))          # Sequence(): everything passes
     for stages, makers in pipes:
         el, a, b = pipe(stages, makers)
         out.append((el, wfs if any(st["k"] == "write" for st in stages) else {}, a, b))
@@ -1910,13 +1983,36 @@ def _prepare(el, A, B, ids):
     return A, B
 
 
+ALIAS_ELEMENTS = ("tocsv", "write", "render", "png", "h2g", "runif", "mapgroup")
+
+
+def _alias_variants(case, rng):
+    """the same flow with objects shared between positions: a context object shared by two pairs, and a value
+    standing at two positions (outside the property's quantifier; see DESIGN: locality)"""
+    specs, _ = _flow_specs(case)
+    n = len(specs)
+    if n < 2 or case["el"]["k"] not in ALIAS_ELEMENTS or case["el"].get("real"):
+        return
+    with_ctx = [i for i, sp in enumerate(specs) if sp.get("c") is not None and sp["d"]["k"] != "gplots"]
+    if len(with_ctx) >= 2:
+        i, j = sorted(rng.sample(with_ctx, 2))
+        yield dict(case, alias=[[i, j, "ctx"]])
+    i, j = sorted(rng.sample(range(n), 2))
+    # the copy takes the place of a value of the same kind (selected / unselected), so that A and B keep their meaning
+    same_kind = [(a, b) for a in range(n) for b in range(a + 1, n) if case["pat"][a] == case["pat"][b]]
+    if same_kind:
+        i, j = rng.choice(same_kind)
+        yield dict(case, alias=[[i, j, "same"]])
+
+
 def gen_cases(ctx):
+    """a generator (lazily enumerable: a changed tree makes a quick run take a sample of the thorough cases)"""
     rng = ctx.rng
-    cases = []
     quick = ctx.tier == "quick"
     draws = 2 if quick else 14
     sizes = [(a, b) for a in range(4) for b in range(4)]
     configs = _configs(ctx.tier)
+    ctx.exhaustive = False
     if quick:
         # RunIf has 6 selectors x 9 inner sequences: keep a cross (every selector, every inner sequence) and a sample
         keep = []
@@ -1941,7 +2037,7 @@ def gen_cases(ctx):
                     if len(A) + len(B) < 2 and (pal_a and pal_b):
                         continue
                     for pat in _patterns(len(A), len(B)):
-                        cases.append(_mk_case(el, fs, A, B, pat, rng))
+                        yield _mk_case(el, fs, A, B, pat, rng)
         # 2. all interleavings of drawn lists with |A|, |B| <= 3
         for (na, nb) in sizes:
             many = el["k"] in ("runif", "mapbins", "mapgroup")     # many settings of these: one draw each in quick
@@ -1952,8 +2048,26 @@ def gen_cases(ctx):
                 A = _draw(rng, mk_a(ids, rng), na) if na else []
                 B = _draw(rng, mk_b(ids, rng), nb) if nb else []
                 A, B = _prepare(el, A, B, ids)
-                for pat in _patterns(len(A), len(B)):
-                    cases.append(_mk_case(el, fs, A, B, pat, rng))
+                pats = list(_patterns(len(A), len(B)))
+                for pat in pats:
+                    yield _mk_case(el, fs, A, B, pat, rng)
+                if real or el["k"] == "pdf" or d > 0:
+                    continue
+                # 2b. the element object used a second time (state kept between runs must not carry anything from
+                #     the unselected values of either flow)
+                if (na, nb) in ((1, 1), (2, 1), (1, 2), (2, 2), (0, 2), (3, 3)):
+                    A2 = _draw(rng, mk_a(ids, rng), rng.randint(0, 2))
+                    B2 = _draw(rng, mk_b(ids, rng), rng.randint(0, 2))
+                    A2, B2 = _prepare(el, A2, B2, ids)
+                    for pat in rng.sample(pats, min(2, len(pats))):
+                        pat2 = [True] * len(A2) + [False] * len(B2)
+                        rng.shuffle(pat2)
+                        yield dict(_mk_case(el, fs, A, B, pat, rng), second={"A": A2, "B": B2, "pat": pat2})
+                # 2c. flows whose values share objects
+                if (na, nb) in ((1, 1), (2, 1), (1, 2), (2, 2)):
+                    for pat in rng.sample(pats, min(2, len(pats))):
+                        for c in _alias_variants(_mk_case(el, fs, A, B, pat, rng), rng):
+                            yield c
         # 3. longer flows, random interleavings
         if not quick and not real:
             for _ in range(30):
@@ -1965,9 +2079,7 @@ def gen_cases(ctx):
                 for _ in range(4):
                     pat = [True] * len(A) + [False] * len(B)
                     rng.shuffle(pat)
-                    cases.append(_mk_case(el, fs, A, B, pat, rng))
-    ctx.exhaustive = False
-    return cases
+                    yield _mk_case(el, fs, A, B, pat, rng)
 
 
 def _refresh(vals, ids):
